@@ -87,6 +87,14 @@ class Case:
             # former hang (fixed by 06e6c71): stage s+1 exits 0 without reading, stage s writes more than
             # a pipe holds; it must now get SIGPIPE and the invocation must fail cleanly
             return "%s#%d=w300000,x0;%s#%d=s100,x0" % (STAGE_ROLES[s], k, STAGE_ROLES[s + 1], k), ()
+        if self.flow == "blocked" and fmode == "spawn":
+            # stage s-1 writes more than a pipe holds and is stuck until it is killed; stage s cannot be started
+            # (first pipeline only: the tool is missing from the start)
+            ent.append("%s#%d=w400000,x0" % (STAGE_ROLES[s - 1], k))
+            for j in range(self.n):
+                if j not in (s, s - 1):
+                    ent.append("%s#%d=%s" % (STAGE_ROLES[j], k, self.quiet(j, 6 * BASE * self.scale)))
+            return ";".join(ent), (STAGE_ROLES[s],)
         if self.flow == "blocked":
             # stage s-1 writes more than a pipe holds and is stuck until it is killed; s fails
             ent.append("%s#%d=w400000,x0" % (STAGE_ROLES[s - 1], k))
@@ -211,6 +219,14 @@ def ok_predicate(case, o):
     k = f[0]
     if case.out_name(k) and case.out_name(k) in o["files"]:
         bad.append("output %s of the failed pipeline was not removed" % case.out_name(k))
+    if case.flow == "forced":
+        # "terminates ... the remaining stage processes": a stage of the failing pipeline whose own (forced)
+        # termination time lies after the failure must not be seen running to completion
+        d = case.delays()
+        for (kk, j) in o["finished"]:
+            if kk == k and j != f[1] and (f[2] == "spawn" or d[j] > d[f[1]]):
+                bad.append("stage %s of the failing pipeline ran to completion after the failure: the driver waited "
+                           "for it instead of terminating it" % STAGE_ROLES[j])
     return bad
 
 
@@ -269,6 +285,8 @@ def gen_cases(ck):
                         cases.append(Case(nin, mode, (k, s, fm), order=order))
                     if s > 0:
                         cases.append(Case(nin, mode, (k, s, "exit-before-reading"), flow="blocked"))
+                        if k == 0:
+                            cases.append(Case(nin, mode, (k, s, "spawn"), flow="blocked"))
                     cases.append(Case(nin, mode, (k, s, rng.choice(["exit-before-reading", "SIGSEGV"])), flow="natural"))
     extra = 120 if ck.quick else 600
     for _ in range(extra):
